@@ -4,8 +4,11 @@ import (
 	"fmt"
 	"reflect"
 	"testing"
+	"time"
 
 	"github.com/go-spatial/geom"
+	"github.com/pdok/texel/processing"
+	"github.com/pdok/texel/snap"
 	"pgregory.net/rapid"
 
 	"verifharness/gen"
@@ -147,3 +150,137 @@ func oracleC05(c SnapCase) (o report.Outcome) {
 }
 
 func TestC05(t *testing.T) { report.Run(t, specC05, genC05, oracleC05) }
+
+// ---------------------------------------------------------------------------------------------------------------
+// the same policy one level up: what processing hands to the targets for polygons and multipolygons
+
+type C05PipeCase struct {
+	SnapCase
+	Parts [][][][2]float64 `json:"parts"` // further polygons: the feature is a multipolygon of Poly and Parts
+}
+
+var specC05Pipe = report.Spec{Property: "C05", Check: "C05Pipe",
+	Rule: "a polygon or a multipolygon of 1-3 arbitrary polygons (as C05) sent as one feature through processing.ProcessFeatures with the REAL snapping function and one recording target per requested tile matrix; " +
+		"oracle: a target receives the feature iff snapping returned geometry for its tile matrix for at least one part (computed by calling snap.SnapPolygon directly); what it receives is a polygon or a multipolygon with >= 1 polygons, never an empty list, and every polygon satisfies the ring invariants of C05. " +
+		"Non-trivial: >= 2 tile matrices and the feature is delivered to some targets and withheld from others."}
+
+func genC05Pipe(t *rapid.T) C05PipeCase {
+	c := C05PipeCase{SnapCase: drawArbCase(t, gen.AnyGridWide, 3, 30)}
+	g := c.Grid.MustBuild()
+	for k := rapid.IntRange(0, 2).Draw(t, "moreParts"); k > 0; k-- {
+		rings, _ := drawArbRings(t, 20)
+		poly, _ := placeArb(t, g, c.IDs, rings)
+		c.Parts = append(c.Parts, poly)
+	}
+	return c
+}
+
+func oracleC05Pipe(c C05PipeCase) (o report.Outcome) {
+	g := c.Grid.MustBuild()
+	parts := append([][][][2]float64{c.Poly}, c.Parts...)
+	maxID := 0
+	for _, id := range c.IDs {
+		maxID = max(maxID, id)
+	}
+	deepest := g.LevelOf(maxID)
+	for _, p := range gen.ReadBack(flatten(parts)) {
+		for _, v := range p {
+			if !g.Inside(v, deepest) {
+				o.OutOfScope = true
+				o.Label("vertex outside the grid")
+				return o
+			}
+		}
+	}
+	expectDelivered := map[int]bool{}
+	for _, p := range parts {
+		res := snapWith(c.SnapCase, p, c.IDs, c.config())
+		if res.Panic != nil {
+			o.OutOfScope = true
+			o.Label("snapping panicked (decided by C06)")
+			return o
+		}
+		for id, polys := range res.Out {
+			if len(polys) > 0 {
+				expectDelivered[id] = true
+			}
+		}
+	}
+	var feature geom.Geometry
+	if len(parts) == 1 {
+		feature = clonePoly(parts[0])
+	} else {
+		mp := geom.MultiPolygon{}
+		for _, p := range parts {
+			mp = append(mp, clonePoly(p))
+		}
+		feature = mp
+	}
+	pc := PipeCase{Targets: c.IDs}
+	run := &pipeRun{c: pc, returned: make(chan string, 1), snapGate: newGate(true)}
+	run.src = &fakeSource{g: newGate(true), d: &delayer{}, feats: []*fakeFeature{{idx: 0, cols: []interface{}{int64(1)}, g: feature}}}
+	targets := map[int]processing.Target{}
+	for _, id := range c.IDs {
+		ft := &fakeTarget{id: id, g: newGate(true), d: &delayer{}}
+		run.targets = append(run.targets, ft)
+		targets[id] = ft
+	}
+	done := make(chan any, 1)
+	go func() {
+		defer func() { done <- recover() }()
+		processing.ProcessFeatures(run.src, targets, func(p geom.Polygon, ids []int) map[int][]geom.Polygon {
+			return snap.SnapPolygon(p, g.TMS, ids, c.config())
+		})
+	}()
+	select {
+	case <-done:
+	case <-time.After(hangLimit()):
+		hangExit(specC05Pipe, c, "ProcessFeatures did not return")
+	}
+	delivered, withheld := 0, 0
+	for _, ft := range run.targets {
+		got := ft.snapshot()
+		if expectDelivered[ft.id] {
+			delivered++
+		} else {
+			withheld++
+		}
+		if len(got) > 1 || (len(got) == 1) != expectDelivered[ft.id] {
+			o.Failf([]string{"collapse-policy"}, "tile matrix %d: snapping returned geometry: %v, but the target received %d features: %v", ft.id, expectDelivered[ft.id], len(got), got)
+			return o
+		}
+		if len(got) == 0 {
+			continue
+		}
+		var polys []geom.Polygon
+		switch gg := got[0].geom.(type) {
+		case geom.Polygon:
+			polys = []geom.Polygon{gg}
+		case geom.MultiPolygon:
+			for _, p := range gg {
+				polys = append(polys, p)
+			}
+		default:
+			o.Failf([]string{"collapse-policy"}, "tile matrix %d: delivered geometry is a %T", ft.id, got[0].geom)
+			return o
+		}
+		lev := kernel.Leveled{G: g, Level: g.LevelOf(ft.id), Deepest: deepest}
+		if why := wellFormed(lev, polys, c.Flags.Reverse, c.Flags.Keep); why != "" {
+			o.Failf([]string{"malformed"}, "tile matrix %d: delivered geometry: %s; %v", ft.id, why, got[0].geom)
+			return o
+		}
+	}
+	o.NonTrivial = len(c.IDs) >= 2 && delivered > 0 && withheld > 0
+	o.Label("parts=%d", len(parts))
+	return o
+}
+
+func flatten(parts [][][][2]float64) [][][2]float64 {
+	var out [][][2]float64
+	for _, p := range parts {
+		out = append(out, p...)
+	}
+	return out
+}
+
+func TestC05Pipe(t *testing.T) { report.Run(t, specC05Pipe, genC05Pipe, oracleC05Pipe) }
